@@ -21,7 +21,7 @@ def gitc(cwd, *args, env=None, check=True):
 
 
 def one_case(arg):
-    seed, idx, sz, scratch = arg
+    seed, idx, sz, scratch, shimdir = arg
     rng = random.Random("C13|%d|%d" % (seed, idx))
     d = os.path.join(scratch, "a%d" % idx)
     os.makedirs(d)
@@ -195,8 +195,15 @@ def one_case(arg):
                 p = gitc(d, "clone", "-q", "--depth", "1", "--no-checkout", "--branch", head[0].split("/", 2)[2], "file://" + work, cl, check=False)
                 if p.returncode == 0 and os.path.exists(os.path.join(cl, ".git", "shallow")):
                     targets.append(("depth-1-clone", cl))
+            for name, cwd in list(targets):
+                targets.append((name + "+git-path-child-fails", cwd))
             for name, cwd in targets:
-                r = R.sizer(sz, cwd, argv, tmpdir=d)
+                plan = None
+                if name.endswith("+git-path-child-fails"):
+                    plan = R.make_plan(os.path.join(d, "shplan-%d" % out["shallow"]),
+                                       [{"sig": "rev-parse --git-path", "ord": 0, "mode": "fault", "before_exec": rng.random() < 0.5,
+                                         "after_bytes": rng.choice([0, 3, 1 << 30]), "term": rng.choice(["exit:128", "sig:KILL", "exit:2"])}])
+                r = R.sizer(sz, cwd, argv, shimdir=shimdir, plan=plan, tmpdir=d)
                 out["evals"] += 1
                 out["shallow"] += 1
                 if r.rc == 0 or report_shaped(r.out):
@@ -220,7 +227,8 @@ def run(chk, b, tier):
     n = 32 if tier == "quick" else 400
     sz = b.sizer()
     scratch = b.scratchdir()
-    res = R.pmap(one_case, [(R.SEED, i, sz, scratch) for i in range(n)], chk=chk)
+    shimdir = b.shimdir()
+    res = R.pmap(one_case, [(R.SEED, i, sz, scratch, shimdir) for i in range(n)], chk=chk)
     modes = {}
     for i, r in enumerate(res):
         chk.count(r["evals"])
